@@ -1534,7 +1534,13 @@ def leg_random(ctx, P, spec, rng, force=None):
             if sym and not avoid and rng.random() < 0.5:
                 defaults.append("avoid_center")
             jobs.append((coords, bd, avoid, seed, defaults))
+        if rng.random() < 0.3:
+            # a boundary distance that leaves no room along the shortest axis: the request must be refused, or the
+            # returned point must still be contained at the requested distance (which is impossible)
+            jobs.append((rng.choice(["grid", "cell", "cartesian"]), rng.choice([0.6, 1.5, 3.0]) * minL, rng.random() < 0.5,
+                         rng.randrange(2 ** 32), []))
     for coords, bd, avoid, seed, defaults in jobs:
+        infeasible = bd > 0.5 * minL
         kw = {"boundary_distance": bd, "coords": coords, "rng": np.random.default_rng(seed)}
         if sym:
             kw["avoid_center"] = avoid
@@ -1552,6 +1558,10 @@ def leg_random(ctx, P, spec, rng, force=None):
             inside = bool(g.contains_point(pt, **ckw))
             asgrid = np.atleast_1d(np.array(g.transform(pt, coords, "grid"), dtype=float))
         except Exception as e:  # noqa: BLE001
+            if infeasible and isinstance(e, (RuntimeError, ValueError)):
+                ctx.monitor_evals += 1
+                ctx.hist("random", f"{spec['cls']}/infeasible distance refused ({type(e).__name__})")
+                continue
             raised(ctx, "random", case, spec, e, f"grid.get_random_point({ {a: v for a, v in kw.items() if a != 'rng'} })")
             continue
         ctx.monitor_evals += 1
@@ -1573,6 +1583,8 @@ def leg_random(ctx, P, spec, rng, force=None):
                              f"{spec['cls']}: get_random_point", key={"grid_class": spec["cls"], "leg": "random"})
             if asgrid.shape != (k,):
                 continue
+        if infeasible:
+            continue  # judged by the monitor only (the model draws from a non-empty box)
         twin = np.random.default_rng(seed)
         if not sym:
             us = [float(x) for x in twin.random(d)]
